@@ -432,15 +432,27 @@ def p4(ctx):
     # broadcast: other_cur = other_curs[ cast<ssize_t>(DictGetItem(dict, key)) ], key = expected_keys[i]
     f = prog.one('PyTreeSpec::BroadcastToCommonSuffixImpl')
     inits = local_inits(f)
+    # the per-child cursor table: a local vector of positions that is subscripted to give the
+    # other operand's cursor for the recursive call (found by role: an element of it is assigned
+    # to a variable that the recursive call receives)
+    rec_args = set()
+    for c in calls_in(f.body):
+        t = callee_func(prog, f, c)
+        if t is not None and t.qualname == f.qualname:
+            rec_args |= {member_path(strip_casts(a)) for a in c.call_args() if a is not None}
     idx_uses = []
     for n in f.body.walk():
-        if n.kind == 'CXXOperatorCallExpr' and n.callee_name() == 'operator[]' and len(n.kids) == 3 \
-                and member_path(n.kids[1]) == 'other_curs':
-            idx_uses.append(n)
+        if n.kind == 'BinaryOperator' and n.op == '=' and member_path(n.kids[0]) in rec_args:
+            r = strip_casts(n.kids[1])
+            if r is not None and r.kind == 'CXXOperatorCallExpr' and r.callee_name() == 'operator[]' \
+                    and len(r.kids) == 3 and 'vector<' in (r.kids[1].type or ''):
+                idx_uses.append(r)
     ctx.require(idx_uses, 'BroadcastToCommonSuffixImpl: no use of the per-child cursor table')
+    fkeys = _key_lists(f)
+    ctx.require(fkeys is not None, 'BroadcastToCommonSuffixImpl: the two key lists not recognised')
     for i, n in enumerate(idx_uses):
         ix = strip_casts(n.kids[2])
-        ok, why = _index_by_key(f, ix, inits)
+        ok, why = _index_by_key(f, ix, inits, fkeys[0])
         ctx.check('BroadcastToCommonSuffixImpl/dict-children-by-key#%d' % i, ok,
                   'broadcast: the other operand\'s child for a key is found through the key -> '
                   'position map built from its own key list',
@@ -480,26 +492,46 @@ def p4(ctx):
     g = prog.one('PyTreeSpec::IsPrefix')
     ginits = local_inits(g)
     emps = [c for c in calls_in(g.body, {'emplace'}) if
-            (member_path(c.call_base()) or '').endswith('index_to_index')]
+            re.search(r'unordered_map<(long|ssize_t|optree::ssize_t), ?(long|ssize_t|optree::ssize_t)',
+                      (c.call_base().type if c.call_base() is not None else '') or '')]
     ctx.require(emps, 'IsPrefix: re-ordering index map not found')
+    gkeys = _key_lists(g)
+    ctx.require(gkeys is not None, 'IsPrefix: the two key lists not recognised')
     for i, c in enumerate(emps):
         a = c.call_args()
-        ok, why = _index_by_key(g, strip_casts(a[1]), ginits)
+        ok, why = _index_by_key(g, strip_casts(a[1]), ginits, gkeys[0])
         ctx.check('IsPrefix/dict-children-by-key#%d' % i, ok,
                   'IsPrefix: the re-ordering maps each of this treespec\'s keys to the position '
                   'of the same key in the other treespec',
                   'IsPrefix re-orders dict children %s' % why, c.loc)
     # the position map itself: dict[other_keys[i]] = i
-    for fn_ in (f, g):
+    for fn_, keys_ in ((f, fkeys), (g, gkeys)):
         sets = [c for c in calls_in(fn_.body, {'DictSetItem'})]
-        okm = any(len(c.call_args()) == 3 and 'other_keys' in c.call_args()[1].text(5) and
+        okm = any(len(c.call_args()) == 3 and
+                  re.search(r'\b%s\b' % re.escape(keys_[1]), c.call_args()[1].text(5)) and
                   'int_' in c.call_args()[2].text(4) for c in sets)
         ctx.check('%s/position-map' % short(fn_).split('::')[-1], okm,
                   '%s builds the key -> position map from the other node\'s key list' % short(fn_),
                   '%s: key -> position map not recognised' % short(fn_), fn_.loc)
 
 
-def _index_by_key(f, ix, inits, depth=0):
+def _key_lists(f):
+    """(this node's key list, the other node's key list): the two locals that read a key list out
+    of `node_data`; the other node's list is the one the key -> position map is built from"""
+    lists = [v.name for v in f.body.find('VarDecl') if v.kids and v.kids[-1] is not None and
+             'node_data' in v.kids[-1].text(8) and 'list' in (v.type or '')]
+    lists = list(dict.fromkeys(lists))
+    if len(lists) != 2:
+        return None
+    other = [l for l in lists
+             if any(len(c.call_args()) == 3 and re.search(r'\b%s\b' % re.escape(l), c.call_args()[1].text(5))
+                    for c in calls_in(f.body, {'DictSetItem'}))]
+    if len(other) != 1:
+        return None
+    return [l for l in lists if l != other[0]][0], other[0]
+
+
+def _index_by_key(f, ix, inits, expected='expected_keys', depth=0):
     """ix is cast<ssize_t>(DictGetItem(dict, key)) with key read from the expected key list"""
     if ix is None or depth > 3:
         return False, 'by an unrecognised index'
@@ -512,11 +544,11 @@ def _index_by_key(f, ix, inits, depth=0):
             kp = member_path(key)
             src = inits.get(kp) if kp else key
             txt = (src.text(6) if src is not None else '')
-            if 'expected_keys' in txt and ('ListGetItem' in txt or 'operator*' in txt):
+            if re.search(r'\b%s\b' % re.escape(expected), txt) and ('ListGetItem' in txt or 'operator*' in txt):
                 return True, ''
             return False, 'through a key that is not read from this node\'s key list (%s)' % txt[:60]
         return False, 'by `%s`' % ix.text(4)
     p = member_path(ix)
     if p and p in inits:
-        return _index_by_key(f, strip_casts(inits[p]), inits, depth + 1)
+        return _index_by_key(f, strip_casts(inits[p]), inits, expected, depth + 1)
     return False, 'by `%s` (a position, not a key lookup)' % ix.text(4)
